@@ -10,3 +10,5 @@ import Tbx.Props.C02
 #print axioms Tbx.Props.C02.dinic_assignment_canonical
 #print axioms Tbx.Props.C02.assignment_returns
 #print axioms Tbx.Props.C02.solvers_return_canonical_cut
+#print axioms Tbx.Props.C02.dinic_rerun_same_cut
+#print axioms Tbx.Props.C02.ek_ff_rerun_same_cut
